@@ -138,9 +138,11 @@ prop("C03", ["contracts.c01_client", "contracts.c02_server", "contracts.c03_type
       "NodeGetData", "NodeSetData", "Subscribe", "Notify"],
      bounded=[("bounded.roundtrip", "typed_roundtrip")],
      assumed=["the chain raw -> encode_raw -> download -> frames -> on_request -> set_data -> data_store -> get_data -> frames -> upload -> "
-              "decode_raw is composed from the per-function contracts listed and the four segmented-transfer theorems (client against the "
-              "conformant server model, server against the conformant client model); client and server of the real pair together are "
-              "exercised end to end only by the bounded stand-in",
+              "decode_raw is composed from the per-function contracts listed, the four segmented-transfer theorems (client against the "
+              "conformant server model, server against the conformant client model) and the real-pair theorems (PairDownloadTheorem, "
+              "PairExpedited, PairUploadTheorem, PairUploadSmall: real SdoClient + streams and real SdoServer joined by the inline bus "
+              "env/pairnet.py, only the node's get_data/set_data modelled by env/sdonode.py); the typed layer on top (encode_raw / "
+              "decode_raw, SdoVariable) is composed by contract and exercised end to end by the bounded stand-in",
               "sequential execution (A4): inline delivery of responses"],
      not_decided=["the schedules half of the quantifier: responses delivered later by another thread, the threaded virtual bus, "
                   "1..8 concurrent client threads (queue.Queue and send_lock are trusted)",
@@ -174,3 +176,6 @@ PROPS["C13"]["modules"].append("contracts.l13_blockupload")
 PROPS["C13"]["contracts"].append("BlockUploadTheorem")
 PROPS["C12"]["modules"].append("contracts.l12_blockdownload")
 PROPS["C12"]["contracts"] += ["BlockDownloadTheorem", "BlockDownloadLossTheorem"]
+for _p in ("C03",):
+    PROPS[_p]["modules"].append("contracts.l03_pair")
+    PROPS[_p]["contracts"] += ["PairDownloadTheorem", "PairExpedited", "PairUploadTheorem", "PairUploadSmall"]
